@@ -62,8 +62,8 @@ MAX_CALLS = 60          # underlying calls per execution before the environment 
 FILL = 0xEE
 
 
-class Hang(BaseException):
-    """Raised by the environment when the wrapper keeps calling (an endless read)."""
+Hang = E4.Hang          # raised by the environment when the wrapper keeps calling, or by the CPU watchdog
+CPU_GUARD = 2.0         # CPU-seconds one execution may take (normal: < 1 ms)
 
 
 # ------------------------------------------------------------------ the environment
@@ -242,6 +242,7 @@ def run_case(cfg, ch: E4.Chooser):
 
     for idx, op in enumerate(ops):
         op = tuple(op)
+        E4.arm(CPU_GUARD)
         start_total = len(got)
         start_err = env.err
         status = "ok"
@@ -259,6 +260,8 @@ def run_case(cfg, ch: E4.Chooser):
         except Exception as e:  # noqa: BLE001 - any other type is "an unrelated exception"
             status, problems = "EXC", []
             exc_text = f"{type(e).__name__}: {e}"[:120]
+        finally:
+            E4.disarm()
         got += delivered
         total = len(got)
         outcome.append((status, delivered) if status == "ok" else (status, exc_text))
@@ -361,6 +364,14 @@ def expected_b(declared, terminated, mcl, safe_fallback, body):
 
 
 def run_b(cfgb, ch: E4.Chooser):
+    E4.arm(CPU_GUARD)
+    try:
+        return _run_b(cfgb, ch)
+    finally:
+        E4.disarm()
+
+
+def _run_b(cfgb, ch: E4.Chooser):
     cl, te, term, mcl, sfb, n, via = cfgb
     sent = DATA[:n] if n <= len(DATA) else (DATA * 2)[:n]
     env_s = EnvRI(sent, ch)
@@ -382,6 +393,8 @@ def run_b(cfgb, ch: E4.Chooser):
             s = get_input_stream(environ, safe_fallback=sfb, max_content_length=mcl)
     except RequestEntityTooLarge:
         return ("RETL-early", b"", env_s.pos, False), env_s
+    except Hang:
+        return ("HANG", b"", env_s.pos, False), env_s
     except Exception as e:  # noqa: BLE001
         return ("EXC-early:" + type(e).__name__, b"", env_s.pos, False), env_s
     got = b""
